@@ -22,6 +22,16 @@ NSEQ = 24 if THOROUGH else 5        # partitions per (entry, length) in seq mode
 NTHR = 8 if THOROUGH else 2
 NTHRD = 4 if THOROUGH else 1
 WORKERS = 4
+WORKER_COUNTS = [4, 1, 2, 7, 3, 16, 5, 8]     # the pool's workers() differs from plan to plan (1 = a pool with a single worker)
+
+
+THREADED_WORKER_COUNTS = [4, 2, 7, 3, 5, 8]
+
+
+def workers_for(mode, k):
+    w = WORKER_COUNTS[k % len(WORKER_COUNTS)] if mode == 1 else THREADED_WORKER_COUNTS[k % len(THREADED_WORKER_COUNTS)]
+    R.cls("pool_installed_with_%d_worker%s" % (w, "" if w == 1 else "s"))
+    return w
 
 SIG = re.compile(r"^(\w+)\( (.*?)\) -> (\w+) :", re.M)
 ARG = re.compile(r"\((\w+)\)(\w+)")
@@ -480,10 +490,13 @@ def build_args(seed_key, argtypes, n, kinds, ctx, longer=None, runs=False):
         protos = []
         for j, t in enumerate(argtypes):
             nn = n + 1 if longer == j else n
+            kj = kinds[j] if is_a1(t) else "plain"
+            if isinstance(longer, tuple) and longer[0] == j:      # (position, length, kind)
+                nn, kj = longer[1], longer[2]
             if t == "object":
                 protos.append(None)
             else:
-                protos.append(Proto(t, nn, r, kinds[j] if is_a1(t) else "plain", ctx, runs))
+                protos.append(Proto(t, nn, r, kj, ctx, runs))
         _proto_cache[ck] = protos
     return [p.fresh() if p is not None else None for p in protos]
 
@@ -526,7 +539,7 @@ def run_unmasked_rhs(owner_name, owner, name, f, argtypes, sigtxt, ctx):
                 if (mode == 1 and "seq" not in MODE) or (mode == 2 and "thr" not in MODE.split(",")) or (mode == 3 and "thrd" not in MODE):
                     continue
                 v2 = [lhs.fresh(), rhs.fresh()]
-                vpool.install(mode, WORKERS, (a.seed * 31337 + hash_str(key) + s2 * 7919 + n) & 0x7fffffffffff)
+                vpool.install(mode, workers_for(mode, s2), (a.seed * 31337 + hash_str(key) + s2 * 7919 + n) & 0x7fffffffffff)
                 try:
                     call(f, owner_name, name, v2)
                     got = [snap(x) for x in v2]
@@ -583,6 +596,10 @@ def run_entry(owner_name, owner, name, f, argtypes, ret):
             for j in a1pos:
                 k[j] = "masked"
             combos.append(k)
+        if len(a1pos) == 3:          # the remaining three of the 2^3 accessor combinations (exactly two masked)
+            for j in a1pos:
+                k = ["masked" if q in a1pos and q != j else "plain" for q in range(len(argtypes))]
+                combos.append(k)
     if name.startswith("__i") and name != "__init__" and len(argtypes) == 2 and is_a1(argtypes[0]) and is_a1(argtypes[1]):
         try:
             run_unmasked_rhs(owner_name, owner, name, f, argtypes, sigtxt, ctx)
@@ -706,20 +723,32 @@ def run_entry(owner_name, owner, name, f, argtypes, ret):
                     if got != want:
                         R.fail("elementwise:%s.%s:depends_on_position_or_length" % (owner_name, name), sig=sigtxt, kinds=kk, n=n, i=i, got=repr(got)[:200], want=repr(want)[:200])
                         break
-            # ---- O3: one array argument too long
-            if len(a1pos) >= 2 and n == LENGTHS[0] and kk == "p" * len(a1pos) and name != "__init__":
+            # ---- O3: one array argument of another length (one too long, one too short, or - when another argument is a
+            # masked reference - dimensioned like the UNMASKED array).  In-place operators document the last as a leniency
+            # (modelled by run_unmasked_rhs), everything else must raise and leave every argument unchanged.
+            if len(a1pos) >= 2 and n in (LENGTHS[0], LENGTHS[1]) and name != "__init__":
+                lenient = name.startswith("__i") and len(argtypes) == 2
                 for j in a1pos[1:]:
-                    bad = build_args(key, argtypes, n, kinds, ctx, longer=j)
-                    prebad = [snap(v) for v in bad]
-                    R.ev()
-                    R.cls("o3_length_mismatch_calls")
-                    try:
-                        call(f, owner_name, name, bad)
-                        R.fail("length_mismatch:%s.%s:no_raise" % (owner_name, name), sig=sigtxt, longer_arg=j, n=n)
-                    except Exception:
-                        pass
-                    if [snap(v) for v in bad] != prebad:
-                        R.fail("length_mismatch:%s.%s:arguments_changed" % (owner_name, name), sig=sigtxt, longer_arg=j, n=n)
+                    variants = [("longer", (j, n + 1, kinds[j]))]
+                    if n > 1:
+                        variants.append(("shorter", (j, n - 1, kinds[j])))
+                    if not lenient and any(kinds[q] == "masked" for q in a1pos if q != j):
+                        variants.append(("unmasked_length", (j, n + 7, "plain")))      # masked prototypes have 7 unselected elements
+                    if kk != "p" * len(a1pos) or n != LENGTHS[0]:
+                        variants = [v for v in variants if v[0] != "longer" or n == LENGTHS[0]]
+                    for vname, spec in variants:
+                        bad = build_args(key, argtypes, n, kinds, ctx, longer=spec)
+                        prebad = [snap(v) for v in bad]
+                        R.ev()
+                        R.cls("o3_length_mismatch_calls")
+                        R.cls("o3_" + vname + ("_with_masked_argument" if "m" in kk else ""))
+                        try:
+                            call(f, owner_name, name, bad)
+                            R.fail("length_mismatch:%s.%s:no_raise:%s" % (owner_name, name, vname), sig=sigtxt, kinds=kk, mismatched_arg=j, n=n, given=spec[1])
+                        except Exception:
+                            pass
+                        if [snap(v) for v in bad] != prebad:
+                            R.fail("length_mismatch:%s.%s:arguments_changed:%s" % (owner_name, name, vname), sig=sigtxt, kinds=kk, mismatched_arg=j, n=n, given=spec[1])
             # ---- O1: partition / order / thread independence
             if n <= 200:
                 continue
@@ -737,7 +766,7 @@ def run_entry(owner_name, owner, name, f, argtypes, ret):
                     v2 = [None] + build_args(key, argtypes[1:], n, kinds[1:], ctx)
                 else:
                     v2 = build_args(key, argtypes, n, kinds, ctx)
-                vpool.install(mode, WORKERS, (a.seed * 1000003 + hash_str(key) + s * 7919 + n) & 0x7fffffffffff)
+                vpool.install(mode, workers_for(mode, s), (a.seed * 1000003 + hash_str(key) + s * 7919 + n) & 0x7fffffffffff)
                 try:
                     r2 = call(f, owner_name, name, v2)
                     got = ("ok", snap(r2), [snap(v) for v in v2])
@@ -778,7 +807,7 @@ def run_entry(owner_name, owner, name, f, argtypes, ret):
                         if (mode == 1 and "seq" not in MODE) or (mode == 2 and "thr" not in MODE.split(",")) or (mode == 3 and "thrd" not in MODE):
                             continue
                         v2 = build_args(key, argtypes, n, kinds, ctx, runs=True)
-                        vpool.install(mode, WORKERS, (a.seed * 7777 + hash_str(key) + s2 * 104729 + n) & 0x7fffffffffff)
+                        vpool.install(mode, workers_for(mode, s2), (a.seed * 7777 + hash_str(key) + s2 * 104729 + n) & 0x7fffffffffff)
                         try:
                             r2 = call(f, owner_name, name, v2)
                             got = ("ok", snap(r2), [snap(v) for v in v2])
